@@ -5,7 +5,7 @@ import vlib, docgen, e2e
 from vlib import hx, unhx
 from checks import c09 as treegen   # synthetic tree generator (random_tree, systematic, shape_violations)
 
-HTML_ITEMS = ["ctype", "tables", "tagfilter_names", "scanners"]
+HTML_ITEMS = ["ctype", "tables", "tagfilter", "scanners"]
 
 
 def first_diff(a, b):
